@@ -767,13 +767,13 @@ package jsonpatch
 //@   ensures[C03] other-roots-do-not: wf(input) && kind(val(bytes(input))) != KArr ==> !result
 
 //@ func createObjectMergePatch
-//@   callsite[C03] getDiff#1 difference-of-the-two-decoded-documents: arg_a == originalDoc && arg_b == modifiedDoc
+//@   callsite[C03] getDiff#1 difference-of-the-two-decoded-documents: arg_a == *originalDoc && arg_b == *modifiedDoc
 //@   callsite[C03] Marshal#1 the-difference-is-what-is-returned: arg_v == dest
 //@   ensures[C03,C16] rejects-ill-formed: !wf(originalJSON) || !wf(modifiedJSON) ==> err != nil && result.0 == nil
 //@   ensures[C03] rejects-non-objects: wf(originalJSON) && wf(modifiedJSON) && ((kind(val(bytes(originalJSON))) != KObj && kind(val(bytes(originalJSON))) != KNull) || (kind(val(bytes(modifiedJSON))) != KObj && kind(val(bytes(modifiedJSON))) != KNull)) ==> err != nil && result.0 == nil
 
 //@ func createArrayMergePatch
-//@   callsite[C03] createObjectMergePatch#1 element-by-element: arg_originalJSON == originalDocs[i] && arg_modifiedJSON == modifiedDocs[i]
+//@   callsite[C03] createObjectMergePatch#1 element-by-element: arg_originalJSON == (*originalDocs)[i] && arg_modifiedJSON == (*modifiedDocs)[i]
 //@   ensures[C03,C16] rejects-ill-formed: !wf(originalJSON) || !wf(modifiedJSON) ==> err != nil && result.0 == nil
 //@   ensures[C03] rejects-different-lengths: wf(originalJSON) && wf(modifiedJSON) && kind(val(bytes(originalJSON))) == KArr && kind(val(bytes(modifiedJSON))) == KArr && jlen(val(bytes(originalJSON))) != jlen(val(bytes(modifiedJSON))) ==> err != nil && result.0 == nil
 
